@@ -92,7 +92,7 @@ fn registry() -> Vec<CheckDef> {
         id: "C14",
         level: "exploration",
         workers: 16,
-        rule: "exhaustive enumeration: write side {none, plain, sharded} x 0-3 read-only levels x every level in {absent, A, B} (+secondary-shard placements up to 2 readers) x {get, ensure, get_or_update x {Accept, Promote, Replace}} x populate {A, B, NotFound, other error} x checker {none, byte-equality, panicking, recording}, plus ReadOnlyCache::get; non-trivial = at least two copies present, or a hit with a comparable populated value; distinct by construction",
+        rule: "exhaustive enumeration: write side {none, plain, sharded} x 0-3 read-only levels x every level in {absent, A, B} (+secondary-shard placements up to 2 readers) x {get, ensure, get_or_update x {Accept, Promote, Replace}} x populate {A, B, NotFound, other error} x checker {none, byte-equality, panicking, recording}, plus ReadOnlyCache::get; every ensure/get_or_update(Accept|Promote) point with a write cache and a checker runs a second time with the write cache's temporary directory BLOCKED (a regular file named .kismet_temp in its place, so scratch space for the populate comparison cannot be created): the operation may report an error, but if it reports success it is held to the full expectation, checker calls included; non-trivial = at least two copies present, or a hit with a comparable populated value; distinct by construction",
         run: kvlib::cmatrix::run_c14,
         replay: kvlib::cmatrix::replay_c14,
         assumptions: &["oracle: with a checker the call succeeds iff all present copies (and the populated value when compared) are identical; the recording checker logs the two contents of every invocation", "no exact invocation count is demanded, only that every redundant copy is compared and no exhausted handle is shown to the checker"],
